@@ -43,6 +43,7 @@ type Task struct {
 	site    string
 	cond    func() bool // non-nil: parked until cond() holds
 	wake    chan struct{}
+	rel     int32 // race flavour: released at every park, acquired by JoinAll
 	quantum int
 	poison  bool
 	prio    int
@@ -140,12 +141,14 @@ var (
 
 // Active returns the scheduler of the run in progress (nil outside a run).
 func Active() *Sched {
+	defer Restore(EnterHarness())
 	activeMu.Lock()
 	defer activeMu.Unlock()
 	return active
 }
 
 func setActive(s *Sched) {
+	defer Restore(EnterHarness())
 	activeMu.Lock()
 	active = s
 	activeMu.Unlock()
@@ -202,6 +205,7 @@ func (s *Sched) SetFair(f bool)     { s.fair = f }
 // while every task is parked: the bubble is then durably blocked and time
 // jumps to the next timer.
 func (s *Sched) AdvanceClock(d time.Duration) {
+	defer Restore(EnterHarness())
 	select {
 	case <-s.arrival:
 	default:
@@ -225,6 +229,7 @@ func (s *Sched) Resume() { s.stop, s.stopWhy, s.idle = false, "", 0 }
 // Current returns the task on whose goroutine the caller runs (nil if the
 // goroutine is not a task).
 func (s *Sched) Current() *Task {
+	defer Restore(EnterHarness())
 	g := goid()
 	s.mu.Lock()
 	t := s.byG[g]
@@ -243,6 +248,7 @@ func CurrentName() string {
 }
 
 func (s *Sched) newTask(name string) *Task {
+	defer Restore(EnterHarness())
 	s.mu.Lock()
 	defer s.mu.Unlock()
 	// deterministic unique name
@@ -269,6 +275,7 @@ func (s *Sched) newTask(name string) *Task {
 
 // enter binds the calling goroutine to t and parks it until first released.
 func (s *Sched) enter(t *Task) {
+	defer Restore(EnterHarness())
 	g := goid()
 	s.mu.Lock()
 	t.gid = g
@@ -284,6 +291,8 @@ func (s *Sched) enter(t *Task) {
 }
 
 func (s *Sched) exit(t *Task) {
+	Release(&t.rel) // (race flavour) what the task did is ordered before the end of the run
+	defer Restore(EnterHarness())
 	s.mu.Lock()
 	t.state = tsDone
 	delete(s.byG, t.gid)
@@ -292,6 +301,7 @@ func (s *Sched) exit(t *Task) {
 }
 
 func (s *Sched) notifyArrival() {
+	defer Restore(EnterHarness())
 	select {
 	case s.arrival <- struct{}{}:
 	default:
@@ -302,7 +312,9 @@ func (s *Sched) notifyArrival() {
 // name) when Go returns; its goroutine parks before running f.
 func (s *Sched) Go(name string, f func()) *Task {
 	t := s.newTask(name)
+	old := EnterGnet() // (race flavour) the creation edge parent -> child is a real one
 	go func() {
+		EnterHarness()
 		defer func() {
 			r := recover()
 			s.taskPanic(t, r)
@@ -311,6 +323,7 @@ func (s *Sched) Go(name string, f func()) *Task {
 		s.enter(t)
 		f()
 	}()
+	Restore(old)
 	return t
 }
 
@@ -335,12 +348,14 @@ func WrapErr(name string, f func() error) func() error {
 	}
 	t := s.newTask(name)
 	return func() (err error) {
+		EnterHarness()
 		defer func() {
 			r := recover()
 			s.taskPanic(t, r)
 			s.exit(t)
 		}()
 		s.enter(t)
+		defer Restore(EnterGnet())
 		return f()
 	}
 }
@@ -352,7 +367,7 @@ func Submit(f func()) error {
 		go f()
 		return nil
 	}
-	s.Go("worker", f)
+	s.Go("worker", func() { defer Restore(EnterGnet()); f() })
 	return nil
 }
 
@@ -387,7 +402,7 @@ func GoStmt(f func()) {
 		go f()
 		return
 	}
-	s.Go("go", f)
+	s.Go("go", func() { defer Restore(EnterGnet()); f() })
 }
 
 // AfterWait / AfterRecv wrap a blocking expression (rule R6): the goroutine
@@ -398,9 +413,10 @@ func AfterRecv[T any](v T) T { Yield("post-block"); return v }
 // MapKeys returns the keys of m in a seed-determined order (rule R5).
 func MapKeys[M ~map[K]V, K comparable, V any](m M) []K {
 	keys := make([]K, 0, len(m))
-	for k := range m {
+	for k := range m { // (race flavour: this read of the map belongs to the code under test)
 		keys = append(keys, k)
 	}
+	defer Restore(EnterHarness())
 	sort.Slice(keys, func(i, j int) bool { return fmt.Sprint(keys[i]) < fmt.Sprint(keys[j]) })
 	if s := Active(); s != nil {
 		r := s.mapRng
@@ -459,6 +475,7 @@ func Block(site string, cond func() bool) {
 }
 
 func (s *Sched) yield(site string, cond func() bool) {
+	defer Restore(EnterHarness())
 	g := goid()
 	s.mu.Lock()
 	t := s.byG[g]
@@ -487,10 +504,20 @@ func (s *Sched) yield(site string, cond func() bool) {
 	t.site = site
 	t.cond = cond
 	s.mu.Unlock()
+	Release(&t.rel) // (race flavour) a release nobody acquires before the run is over (JoinAll)
 	s.notifyArrival()
 	<-t.wake
 	if t.poison {
 		panic(Poison)
+	}
+}
+
+// JoinAll orders everything the tasks of this run did (up to the last time
+// each of them parked or exited) before what the caller does next. Without it
+// the race detector would see the tasks of consecutive runs as concurrent.
+func (s *Sched) JoinAll() {
+	for _, t := range s.tasks {
+		Acquire(&t.rel)
 	}
 }
 
@@ -606,6 +633,7 @@ func (s *Sched) choose(opts []option) int {
 // Loop runs the schedule until Stop is called, the step cap is hit, or the
 // system is dead (nothing runnable, no timer progress allowed).
 func (s *Sched) Loop() {
+	defer Restore(EnterHarness())
 	for !s.stop {
 		synctest.Wait()
 		s.settle()
@@ -712,6 +740,7 @@ func (s *Sched) Loop() {
 // settle classifies the task that was released last: if it neither parked nor
 // exited it is durably blocked in a Go primitive.
 func (s *Sched) settle() {
+	defer Restore(EnterHarness())
 	s.mu.Lock()
 	for _, t := range s.tasks {
 		if t.state == tsRunning {
@@ -724,6 +753,7 @@ func (s *Sched) settle() {
 // Alive lists tasks that have not exited, with their state (diagnostics and
 // liveness oracles).
 func (s *Sched) Alive() []string {
+	defer Restore(EnterHarness())
 	s.mu.Lock()
 	defer s.mu.Unlock()
 	var out []string
@@ -737,6 +767,7 @@ func (s *Sched) Alive() []string {
 
 // TaskState returns the state of a task by name: "", "parked", "goblocked", "done".
 func (s *Sched) TaskState(name string) (state, site string, blockedOnCond bool) {
+	defer Restore(EnterHarness())
 	s.mu.Lock()
 	defer s.mu.Unlock()
 	for _, t := range s.tasks {
@@ -751,6 +782,7 @@ func (s *Sched) TaskState(name string) (state, site string, blockedOnCond bool) 
 // unwinds; returns the names of tasks that could not be unwound (blocked in Go
 // primitives).
 func (s *Sched) Teardown() (stuck []string) {
+	defer Restore(EnterHarness())
 	for round := 0; round < 10000; round++ {
 		synctest.Wait()
 		s.settle()
